@@ -14,6 +14,8 @@ R18.d  the observation dictionary and the observation space are built over
        the same keys from the same sources.
 R18.e  padding: fill value True for the removed-nodes mask and -1 otherwise,
        original data copied to the leading corner (padding only at the end).
+R18.h  no closure created in a loop of these modules keeps the loop variable by
+       reference (late binding) - every kept closure would see the last value.
 """
 
 from __future__ import annotations
@@ -36,6 +38,7 @@ MANIFEST = {
         "fill values at the end. Not decided: membership of each observation "
         "array in its space (shapes and dtypes are runtime values)."
         " Also decided: no function of these modules accumulates into a mutable default argument or a class-level mutable shared by all instances."
+        " Also decided: no closure created in a loop keeps the loop variable by reference (late binding)."
     ),
     "note": "Linear arithmetic over the AST of the space declarations; gymnasium's MultiDiscrete(nvec, start) semantics [start, start+nvec-1] is trusted.",
     "technique": "sibling call-site agreement + symbolic interval evaluation of space declarations + return-path constants",
@@ -850,6 +853,9 @@ def freshness(ctx):
 
 def run(ctx):
     chk = ctx.chk
+    from .common import check_late_binding
+
+    check_late_binding(ctx, "R18.h", ("job_shop_lib.reinforcement_learning",), "the environments")
     from .common import check_mutable_defaults
 
     check_mutable_defaults(ctx, "R18.g", ("job_shop_lib.reinforcement_learning",), "the environments")
@@ -859,10 +865,10 @@ def run(ctx):
     chk.rule("R18.c", "truncated is constantly False; done = schedule.is_complete() after the dispatch; multi env passes them through")
     chk.rule("R18.d", "observation dict and observation space are built over the same keys and sources")
     chk.rule("R18.e", "padding fill values: True for removed_nodes, -1 otherwise; data in the leading corner")
-    sibling_constructor_agreement(ctx, "R18.a")
-    action_and_edge_ranges(ctx)
-    feature_boxes(ctx)
-    step_flags(ctx)
-    key_agreement(ctx)
-    freshness(ctx)  # before padding(): a stale-buffer finding must not be hidden by an unrecognised fill-value idiom
-    padding(ctx)
+    ctx.attempt(sibling_constructor_agreement, ctx, "R18.a")
+    ctx.attempt(action_and_edge_ranges, ctx)
+    ctx.attempt(feature_boxes, ctx)
+    ctx.attempt(step_flags, ctx)
+    ctx.attempt(key_agreement, ctx)
+    ctx.attempt(freshness, ctx)  # before padding(): a stale-buffer finding must not be hidden by an unrecognised fill-value idiom
+    ctx.attempt(padding, ctx)
